@@ -273,6 +273,32 @@ func c13Run(raw json.RawMessage, c *mc.Ctx) {
 		p.Write(root)
 		os.Remove(filepath.Join(root, "project", p.ID, "crop_"+p.ID+".txt"))
 		run("csv", p)
+		// the same table with the reader's own column names, in the customary order and in two other orders
+		names := []string{"Field_ID", "crop", "sowing", "harvest", "Rex", "yld", "autorg", "variety"}
+		for oi, order := range [][]int{{0, 1, 2, 3, 4, 5, 6, 7}, {1, 0, 3, 2, 5, 4, 7, 6}, {7, 6, 5, 4, 3, 2, 1, 0}} {
+			var cb strings.Builder
+			var hdr []string
+			for _, k := range order {
+				hdr = append(hdr, names[k])
+			}
+			cb.WriteString(strings.Join(hdr, ",") + "\n")
+			for i, r := range p.Rotation {
+				sow := "--------"
+				if i > 0 {
+					sow = proj.DateStr("DateDElong", proj.D(r.Sow))
+				}
+				cells := []string{p.Field, r.Crop, sow, proj.DateStr("DateDElong", proj.D(r.Harvest)), fmt.Sprintf("%03d", r.Rex), fmt.Sprintf("%03d", r.Yld), fmt.Sprint(r.AutOrg), r.Variety}
+				var row []string
+				for _, k := range order {
+					row = append(row, cells[k])
+				}
+				cb.WriteString(strings.Join(row, ",") + "\n")
+			}
+			p.Files = map[string]string{"crop_" + p.ID + ".csv": cb.String()}
+			p.Write(root)
+			os.Remove(filepath.Join(root, "project", p.ID, "crop_"+p.ID+".txt"))
+			run(fmt.Sprintf("csv-named-columns-order-%d", oi), p)
+		}
 	case "endit":
 		b := e1Base{Soil: []string{"loam12", "sand20", "silt5st"}[sp.Var%3], GW: 99, InitW: 0.7, InitN: 30, ET: 3, Start: "2001-08-15"}
 		p := e1Project(b, 120)
